@@ -73,6 +73,23 @@ def simulate(prop, name, num, depth, seed, params, module="MCQBFT", state_vars=(
     return out, r.generated
 
 
+def committee7(prop, tier, seed, invariants):
+    """Committee of 7 (f = 2, Byzantine operators 6 and 7 with real keys): macro-grain simulations (a whole prepare /
+    commit quorum is one step, everything else one delivery per step) reach decisions in about 40 % of the behaviours,
+    the uniform fine grain almost never does at this size (measured: 1 of 40). Two leader rotations: the first leaders
+    correct (offset 0) and the first two leaders Byzantine (offset 5)."""
+    n = 24 if tier == "quick" else 400
+    out, gen = [], 0
+    for k, (lo, budget) in enumerate(((0, 4), (5, 6))):
+        b, g = simulate(prop, "sim-n7-lo%d" % lo, n, 55, seed + 31 * k, params_of(N=7, Byz=(6, 7), LeaderOffset=lo),
+                        N=7, F=2, Byz="{6, 7}", MaxRound=3, LeaderOffset=lo, ByzBudget=budget, ByzActs="AllActs",
+                        Macro="TRUE", invariants=invariants, workers=4 if tier == "quick" else 12)
+        out += b
+        gen += g
+    decided = sum(1 for b in out if any(n_.get("decided") for n_ in b["steps"][-1]["state"]["st"].values()))
+    return out, gen, {"behaviours": len(out), "with_a_decision": decided, "N": 7, "F": 2, "Byz": [6, 7]}
+
+
 def binding_selftest(prop, behs):
     """Demonstrates the binding: corrupt one field of one predicted state and expect the replay to notice."""
     import copy
